@@ -494,3 +494,25 @@ Definition spec_equiv (s1 s2 : spec) : Prop :=
 
 (* the key the next creation will return *)
 Definition next_key (t : tree) : key := snd (sm_insert (t_nodes t) false).
+
+(* ------------------------------------------------------------------ the specification run as a whole *)
+(* the reference model run on its own: operations paired with the ids handed out for creations *)
+Fixpoint spec_run (s : spec) (os : list op) (ks : list key) : spec * list ret :=
+  match os, ks with
+  | o :: r, k :: kr => let x := spec_step s o k in let y := spec_run (fst x) r kr in (fst y, snd x :: snd y)
+  | _, _ => (s, [])
+  end.
+
+(* the precondition judged on the reference model along its own run *)
+Fixpoint spec_pre_run (s : spec) (os : list op) (ks : list key) : Prop :=
+  match os, ks with
+  | o :: r, k :: kr => pre s o /\ spec_pre_run (fst (spec_step s o k)) r kr
+  | _, _ => True
+  end.
+
+(* the ids the concrete allocator hands out along a run (one per operation; only creations use theirs) *)
+Fixpoint run_keys (t : tree) (os : list op) : list key :=
+  match os with
+  | [] => []
+  | o :: r => next_key t :: match step t o with Ok (t', _) => run_keys t' r | Panic => [] end
+  end.
